@@ -409,6 +409,64 @@ theorem reloadG_step {s r latest} (rep : RepG s r latest) {now : Nat} (hle : lat
 
 
 
+/-! ## `LoadRulesOfResource` -/
+
+theorem forall₂_filter {α β : Type} {R : α → β → Prop} {l1 : List α} {l2 : List β} (h : List.Forall₂ R l1 l2)
+    (p : α → Bool) (q : β → Bool) (hpq : ∀ a b, R a b → p a = q b) : List.Forall₂ R (l1.filter p) (l2.filter q) := by
+  induction h with
+  | nil => exact List.Forall₂.nil
+  | cons hab _ ih =>
+    simp only [List.filter_cons, hpq _ _ hab]
+    split_ifs
+    · exact List.Forall₂.cons hab ih
+    · exact ih
+
+theorem reloadFrom_presence (rules : List Rule) (now : Nat) (pool : List Ctrl) (acc : St) (i : Nat) :
+    ∀ q, lookup acc.nodes q ≠ none → lookup (reloadFrom pool acc now i rules).nodes q ≠ none := by
+  induction rules generalizing pool acc i with
+  | nil => intro q h; exact h
+  | cons r rs ih =>
+    intro q hq
+    simp only [reloadFrom]
+    split_ifs
+    swap
+    · exact ih pool acc (i + 1) q hq
+    split
+    · split
+      · exact ih _ _ (i + 1) q hq
+      · exact ih pool acc (i + 1) q hq
+    · split
+      · exact ih _ _ (i + 1) q hq
+      · exact ih pool acc (i + 1) q hq
+    · have hq' : lookup (match r.kind with | .reject => Sentinel.FlowReject.ensure acc.nodes r.src now | _ => acc.nodes) q ≠ none := by
+        cases r.kind with
+        | reject => exact ensure_presence acc.nodes r.src now q hq
+        | throttle _ => exact hq
+      split
+      · exact ih _ _ (i + 1) q hq'
+      · exact ih _ _ (i + 1) q hq'
+
+theorem loadresG_step {s r latest} (rep : RepG s r latest) {now : Nat} (hle : latest ≤ now) (h0 : 0 < now)
+    (res : Nat) (rules : List Rule) (base : Nat) :
+    RepG (loadresG s res rules now base) (refLoadresG r res rules base) now := by
+  have rep' := rep.idle hle
+  have hoth : List.Forall₂ (PairOk s.nodes r.H now) (s.ctrls.filter fun c => c.rule.res ≠ res)
+      (r.ctrls.filter fun c => c.info.rule.res ≠ res) :=
+    forall₂_filter rep'.pairs _ _ (fun a b p => by rw [p.rule_eq])
+  have hsel : List.Forall₂ (PairOk s.nodes r.H now) (s.ctrls.filter fun c => c.rule.res = res)
+      (r.ctrls.filter fun c => c.info.rule.res = res) :=
+    forall₂_filter rep'.pairs _ _ (fun a b p => by rw [p.rule_eq])
+  unfold loadresG refLoadresG
+  by_cases he : rules.isEmpty = true
+  · simp only [he, if_true]
+    exact ⟨hoth, rep'.nodes, rep'.hNode⟩
+  · simp only [he]
+    have hrep := reloadFrom_rep (forRes res rules) now h0 r.H _ _ { nodes := s.nodes, ctrls := [] } [] base
+      hsel List.Forall₂.nil rep'.nodes rep'.hNode
+    have hpres := reloadFrom_presence (forRes res rules) now (s.ctrls.filter fun c => c.rule.res = res)
+      { nodes := s.nodes, ctrls := [] } base
+    exact ⟨List.rel_append (hoth.imp (fun _ _ p => p.mono hpres (le_refl _))) hrep.pairs, hrep.nodes, hrep.hNode⟩
+
 /-! ## whole op histories -/
 
 structure RepM (m : MSt) (rm : RMSt) : Prop where
@@ -431,6 +489,15 @@ theorem stepOp_eq_ref {m : MSt} {rm : RMSt} (hm : RepM m rm) (o : Op) :
   | load rules =>
     simp only [stepOp, refStepOp]
     have rep' := reloadG_step rep hl hpos rules m.nrules
+    rw [hn] at rep'
+    refine ⟨?_, ⟨m.t / nsPerMs, le_refl _, by rw [← hn] at rep' ⊢; exact rep'⟩, ht, by rw [hn], hpos⟩
+    have := rep'.pairs.length_eq
+    rw [← hn] at this ⊢
+    simp only [Out.loaded.injEq]
+    exact this
+  | loadres res rules =>
+    simp only [stepOp, refStepOp]
+    have rep' := loadresG_step rep hl hpos res rules m.nrules
     rw [hn] at rep'
     refine ⟨?_, ⟨m.t / nsPerMs, le_refl _, by rw [← hn] at rep' ⊢; exact rep'⟩, ht, by rw [hn], hpos⟩
     have := rep'.pairs.length_eq
@@ -801,6 +868,43 @@ theorem CappedG.reload {r latest} (cp : CappedG r latest) (rules : List Rule) (b
       rw [hb, List.drop_length]
       simp [histOf, refW, Thr.not_exceeds_zero]
 
+theorem CappedG.loadres {r latest} (cp : CappedG r latest) (res : Nat) (rules : List Rule) (base : Nat) :
+    CappedG (refLoadresG r res rules base) latest := by
+  unfold refLoadresG
+  by_cases he : rules.isEmpty = true
+  · simp only [he, if_true]
+    exact ⟨cp.le, fun c hc => cp.born c (List.mem_of_mem_filter hc), fun c hc => cp.cap c (List.mem_of_mem_filter hc)⟩
+  · simp only [he]
+    have hmem : ∀ c' ∈ (r.ctrls.filter fun c => c.info.rule.res ≠ res) ++
+        refReloadFrom (r.ctrls.filter fun c => c.info.rule.res = res) [] r.H.length base (forRes res rules),
+        c' ∈ r.ctrls ∨ (c'.born = r.H.length ∧ (c'.since ≤ r.H.length ∨ ∃ c ∈ r.ctrls, c'.since = c.since)) := by
+      intro c' hc'
+      rcases List.mem_append.mp hc' with h | h
+      · exact Or.inl (List.mem_of_mem_filter h)
+      · rcases refReloadFrom_mem _ _ _ [] base c' h with h' | h' | ⟨hb, hs⟩
+        · simp at h'
+        · exact Or.inl (List.mem_of_mem_filter h')
+        · refine Or.inr ⟨hb, ?_⟩
+          rcases hs with hs | ⟨c, hc, hs⟩
+          · exact Or.inl hs
+          · exact Or.inr ⟨c, List.mem_of_mem_filter hc, hs⟩
+    refine ⟨cp.le, ?_, ?_⟩
+    · intro c' hc'
+      rcases hmem c' hc' with h | ⟨hb, hs⟩
+      · exact cp.born c' h
+      · show c'.since ≤ c'.born ∧ c'.born ≤ r.H.length
+        rw [hb]
+        refine ⟨?_, le_refl _⟩
+        rcases hs with hs | ⟨c, hc, hs⟩
+        · exact hs
+        · rw [hs]; exact le_trans (cp.born c hc).1 (cp.born c hc).2
+    · intro c' hc' hk hf e
+      rcases hmem c' hc' with h | ⟨hb, _⟩
+      · exact cp.cap c' h hk hf e
+      · show c'.info.rule.thr.exceeds (refW c'.info.L (histOf (r.H.drop c'.born) c'.info.rule.res) (e + c'.info.L - c'.info.Iv) e) = false
+        rw [hb, List.drop_length]
+        simp [histOf, refW, Thr.not_exceeds_zero]
+
 theorem refRunOps_capped {m : RMSt} (cp : CappedG m.r (m.t / nsPerMs)) (ops : List Op) :
     CappedG (refRunOps RuleInfo.feed m ops).1.r ((refRunOps RuleInfo.feed m ops).1.t / nsPerMs) := by
   induction ops generalizing m with
@@ -811,6 +915,7 @@ theorem refRunOps_capped {m : RMSt} (cp : CappedG m.r (m.t / nsPerMs)) (ops : Li
     cases o with
     | clock ms => exact cp.idle (Nat.div_le_div_right (le_max_left _ _))
     | load rules => exact cp.reload rules m.nrules
+    | loadres res rules => exact cp.loadres res rules m.nrules
     | entry res b => exact cp.entry (le_refl _) res b
 
 
